@@ -397,6 +397,66 @@ def state_stability(e, seed, dseed, variant=0):
     return []
 
 
+def _array_refs(est):
+    """the ndarray objects reachable from the fitted attributes (one level into lists / tuples / dicts)"""
+    import numpy
+    out = {}
+    for k, v in vars(est).items():
+        if not k.endswith("_") or k.startswith("__"):
+            continue
+        items = [(k, v)]
+        if isinstance(v, (list, tuple)):
+            items = [("%s[%d]" % (k, i), x) for i, x in enumerate(v)]
+        elif isinstance(v, dict):
+            items = [("%s[%r]" % (k, kk), x) for kk, x in v.items()]
+        for name, x in items:
+            if isinstance(x, numpy.ndarray) and x.dtype != object:
+                out[name] = x
+    return out
+
+
+def prior_arrays_untouched(e, seed, dseed):
+    """A refit builds new state: the array OBJECTS an earlier fit stored (which a shallow copy of the estimator, or the
+    caller, may still hold) keep their content when the estimator is fitted again - here on another training set of
+    the same shape, the case in which reusing a buffer would go unnoticed by the estimator itself."""
+    import numpy
+    rng = random.Random(dseed)
+    X, y, w = _menu.make_data(e.data, rng, 0)
+    X2, y2, w2 = _menu.make_data(e.data, rng, 0)
+    est = e.factory()
+    numpy.random.seed(seed)
+    _menu.call_fit(est, X, y, w)
+    refs = _array_refs(est)
+    snaps = {k: v.tobytes() for k, v in refs.items()}
+    numpy.random.seed(seed + 1)
+    _menu.call_fit(est, X2, y2, w2)
+    changed = sorted(k for k, v in refs.items() if v.tobytes() != snaps[k])
+    if changed:
+        return [("%s:refit-writes-into-earlier-arrays:%s" % (e.cls, ",".join(c.split("[")[0] for c in changed[:3])),
+                 "fitting again writes into the arrays the earlier fit stored (a shallow copy of the earlier model, or a "
+                 "reference kept by the caller, now holds the new model's values)", {"arrays_changed": changed[:6]},
+                 "a fit rebinds its fitted attributes to new arrays")]
+    return []
+
+
+def process_snapshot(menu, seed, dseed):
+    """fresh instance of every (fast) menu entry fitted on a fixed data set: fitted state and observer outputs"""
+    import numpy
+    out = {}
+    for e in menu:
+        if e.slow or not e.seeded:
+            continue
+        try:
+            X, y, w = _menu.make_data(e.data, random.Random(dseed), 1)
+            est = e.factory()
+            numpy.random.seed(seed)
+            _menu.call_fit(est, X, y, w)
+            out[e.name] = (fitted_state(est), observe_all(est, e, X, y, seed + 100))
+        except Exception:  # noqa: BLE001
+            continue
+    return out
+
+
 def failed_history_raises(e, seed, dseed, kind, ex):
     """the history with failing fits in between raised: a violation when the same history WITHOUT them does not"""
     try:
@@ -430,6 +490,11 @@ def search(ctx, hints):
             if key not in vs:
                 vs[key] = Violation(key, what, inp, obs, req)
 
+    # a fresh instance fitted NOW (before anything else ran in this process) and again at the END of the search must be
+    # the same model: nothing outside the instances (module-level caches, shared default arguments, class attributes)
+    # remembers the fits made in between
+    snap_seed, snap_dseed = ctx.rng.randrange(1 << 30), ctx.rng.randrange(1 << 30)
+    early = process_snapshot(_menu.build_menu(), snap_seed, snap_dseed)
     for e in _menu.build_menu():
         if e.slow and not ctx.thorough:
             continue
@@ -477,6 +542,16 @@ def search(ctx, hints):
                 evals += 1
                 nontriv.add((e.name, "shared-components"))
                 add(bad, {"entry": e.name, "kind": "shared-components", "variants": [0, 1], "seed": seed, "dseed": dseed})
+        # a refit does not write into the arrays of the earlier fit
+        seed, dseed = ctx.rng.randrange(1 << 30), ctx.rng.randrange(1 << 30)
+        for rep in range(3):        # three data sets: the shapes of the two fits must happen to agree
+            try:
+                bad = prior_arrays_untouched(e, seed + rep, dseed + rep)
+                evals += 1
+                nontriv.add((e.name, "prior-arrays", rep))
+                add(bad, {"entry": e.name, "kind": "prior-arrays", "variants": [0, 0], "seed": seed + rep, "dseed": dseed + rep})
+            except Exception:  # noqa: BLE001
+                pass
         # using the model does not change it
         seed, dseed = ctx.rng.randrange(1 << 30), ctx.rng.randrange(1 << 30)
         try:
@@ -560,6 +635,19 @@ def search(ctx, hints):
             # configuration never reads (e.g. the leaf regressions of a former criterion='mselin') are not observable
             add(compare(e2, est, fresh, last, ref, "reconfigured", state=False),
                 {"entry": e1.name, "entry2": e2.name, "kind": "reconfigured", "variants": [0, 1], "seed": seed, "dseed": dseed})
+    late = process_snapshot(_menu.build_menu(), snap_seed, snap_dseed)
+    for name in sorted(set(early) & set(late)):
+        evals += 1
+        if early[name] != late[name]:
+            (sa, oa), (sb, ob) = early[name], late[name]
+            diff = sorted(k for k in set(sa) | set(sb) if sa.get(k) != sb.get(k)) + \
+                [o for (o, a), (_, b) in zip(oa, ob) if a != b]
+            cls = {m.name: m.cls for m in _menu.build_menu()}[name]
+            add([("%s:depends-on-earlier-calls-in-the-process:%s" % (cls, ",".join(diff[:3])),
+                  "a FRESH instance fitted on the same data under the same seeds gives another model after other "
+                  "estimators were fitted in the same process than before", {"differs": diff[:6]},
+                  "the model depends on parameters, training set and seeds only")],
+                {"entry": name, "kind": "process-order", "variants": [1], "seed": snap_seed, "dseed": snap_dseed})
     return list(vs.values()), {"evaluations": evals, "distinct_nontrivial": len(nontriv), "samples": samples,
                                "explanations_of_rejected_skeletons": expl}
 
@@ -600,6 +688,23 @@ def replay(ctx, item):
     e = {m.name: m for m in _menu.build_menu()}[inp["entry"]]
     if inp.get("override"):
         e = derived(e, inp["override"])
+    if inp["kind"] == "prior-arrays":
+        return [Violation(k, w, inp, o, r) for k, w, o, r in prior_arrays_untouched(e, inp["seed"], inp["dseed"])]
+    if inp["kind"] == "process-order":
+        # replayed as: snapshot, the refit histories of the class, snapshot
+        menu = [m for m in _menu.build_menu() if m.cls == e.cls]
+        a = process_snapshot(menu, inp["seed"], inp["dseed"])
+        for m in menu:
+            for variants in ((0, 1), (1, 2), (2, 0)):
+                try:
+                    history(m, variants, inp["seed"] + 7, inp["dseed"] + 7)
+                except Exception:  # noqa: BLE001
+                    pass
+        b = process_snapshot(menu, inp["seed"], inp["dseed"])
+        if a.get(e.name) != b.get(e.name):
+            return [Violation(item["key"], "a fresh instance fitted before and after other fits of the class differs", inp,
+                              "differs", "identical")]
+        return []
     if inp["kind"] == "state-stability":
         bad = state_stability(e, inp["seed"], inp["dseed"], inp["variants"][0])
     elif inp["kind"] == "seed-independence":
